@@ -223,6 +223,75 @@ def local_error_paths(rep, u, fname, acq_call, var_hint, release_calls, ok_ret_z
     return len(paths)
 
 
+def descriptor_error_paths(rep, u, fname="tpt_msg_queue_create", acq_call="pipe2", field="fd"):
+    """after pipe2() filled <obj>->fd[], every failing exit closes both descriptors - directly or through a repository function
+    whose body closes both - before the record that holds them is freed"""
+    fn = tp.need(u, fname)
+    rep.functions.add(fname)
+    sites = [(pos, root, c) for pos, root, c, ps in fn.calls({acq_call})]
+    if len(sites) != 1:
+        raise driver.AnalysisBroken("%s: expected one %s() call" % (fname, acq_call))
+    pos, root, call = sites[0]
+    holder = None
+    for x, _ in walk(call["args"][0]):
+        if x.get("k") == "mem" and x.get("f") == field:
+            holder = core.strip_casts(x["b"])
+    if holder is None or holder.get("k") != "ref":
+        raise driver.AnalysisBroken("%s: %s() does not fill a record field '%s'" % (fname, acq_call, field))
+
+    def closes_both(f):
+        idx = set()
+        for _p, _r, c, _ps in f.calls({"close"}):
+            a = core.strip_casts(c["args"][0])
+            if a.get("k") == "sub" and core.strip_casts(a["b"]).get("k") == "mem" and core.strip_casts(a["b"]).get("f") == field:
+                idx.add(const_val(a["i"]))
+        return {0, 1} <= idx
+    closers = {f.name for f in u.function_list if f.has_cfg and f.name != fname and closes_both(f)}
+    paths = r_path.enum_paths(fn, pos[0], max_paths=20000)
+    leaks = []
+    n = 0
+    for p in paths:
+        closed = set()
+        failed_acq = False
+        ret = None
+        for ev in r_path.events(fn, p):
+            if ev[0] == "elem":
+                for x, _ in walk(ev[2]):
+                    if x.get("k") == "call" and x.get("fn") in closers and any(core.is_ref(core.strip_casts(a), id=holder["id"]) for a in x["args"]):
+                        closed |= {0, 1}
+                    if x.get("k") == "call" and x.get("fn") == "close":
+                        a = core.strip_casts(x["args"][0])
+                        if a.get("k") == "sub" and field in key(a):
+                            closed.add(const_val(a["i"]))
+                if ev[2].get("k") == "ret":
+                    ret = ev[2]
+            else:
+                _, b, cond, truth = ev
+                if any(x is call for x, _ in walk(cond)):
+                    try:
+                        v_fail = bool(r_mpt.eval_expr(cond, {id(call): -1}))
+                        v_ok = bool(r_mpt.eval_expr(cond, {id(call): 0}))
+                    except r_mpt.Unknown:
+                        raise driver.AnalysisBroken("%s: the test of %s() is not evaluable" % (fname, acq_call))
+                    if v_fail != v_ok and truth == v_fail:
+                        failed_acq = True
+        if ret is None or failed_acq:
+            continue
+        n += 1
+        rv = ret.get("e")
+        if rv is not None and core.is_ref(core.strip_casts(rv), id=holder["id"]):
+            continue                      # the record (with its descriptors) is handed to the caller
+        if not {0, 1} <= closed:
+            leaks.append(ret["ln"])
+    desc = "%s: every failing exit after %s() succeeded closes both descriptors" % (fname, acq_call)
+    if leaks:
+        rep.violated("R-PAIR", fn, "local:" + acq_call, desc, "failing return(s) at line(s) %s reached without close() of both %s[] entries "
+                     "(closing functions known: %s): two descriptors leak per failed call" % (sorted(set(leaks)), field, sorted(closers) or "none"))
+    else:
+        rep.proved("R-PAIR", fn, "local:" + acq_call, desc, "%d paths after the successful %s()" % (n, acq_call))
+    return n
+
+
 def guards(rep, u):
     n = 0
     for fname in ("tp_shutdown_wait", "tp_destroy"):
@@ -481,6 +550,7 @@ def run(rep, tier):
     b = local_error_paths(rep, um, "tpt_msg_queue_create", "calloc", "msg_queue", {"free", "tpt_msg_queue_destroy"})
     rep.floor("tp_create paths", a, 4)
     rep.floor("tpt_msg_queue_create paths", b, 3)
+    rep.floor("paths after a successful pipe2", descriptor_error_paths(rep, um), 2)
     # tpt_data_init: failing event init must undo what was created
     fi = tp.need(u, "tpt_data_init")
     rep.functions.add(fi.name)
